@@ -35,8 +35,22 @@ def sampled_levels(head: int, last: int, step: int):
     return list(range(head, last, -step))
 
 
+def slice_range(start: int, stop, head_level: int):
+    """(first level, last level) that the block slice `blocks[start:stop]` denotes on a chain whose head is at
+    `head_level` (BlocksQuery.__getitem__ docstring: an int is a block level, or an offset from the head if negative;
+    an empty stop is the head).  start == 0 is not defined here (callers do not use it)."""
+    assert start != 0
+    first = start if start > 0 else max(0, head_level + start)
+    last = head_level if stop is None else stop
+    return first, last
+
+
 def selftest() -> int:
     n = 0
+    assert slice_range(1, None, 97) == (1, 97); n += 1
+    assert slice_range(-5, None, 97) == (92, 97); n += 1
+    assert slice_range(-200, None, 97) == (0, 97); n += 1
+    assert slice_range(3, 40, 97) == (3, 40); n += 1
     h = {0: 'a', 1: 'a', 2: 'b', 3: 'b', 4: 'c'}
     assert changes(h, 0, 4) == [(2, 'b'), (4, 'c')]; n += 1
     assert changes(h, 2, 4) == [(4, 'c')]; n += 1
